@@ -176,8 +176,11 @@ def opUnref (d : Defects) (rights : List Bool) (snap cur : Replica) (p row to si
     let rowMarks := if d.refDeletionUnmarked then [] else [kNode old.room 0 now, kNode old.room 0 old.mdate]
     match snap.edges.find? (fun e => e.src = row && e.dest = to) with
     | none =>
-      -- no such reference: the row is re-dated and re-signed by the caller all the same (no right check)
-      { cur := { cur with nodes := replaceNode n cur.nodes }, marks := rowMarks, res := .okNoRef }
+      -- no such reference: nothing happens (before 456214b the row was re-dated and re-signed by the caller all
+      -- the same, without a right check)
+      if d.refDeletionTouchesRowWithoutRef then
+        { cur := { cur with nodes := replaceNode n cur.nodes }, marks := rowMarks, res := .okNoRef }
+      else { cur, marks := [], res := .okNothing }
     | some e =>
       if !can rights p (e.author = p) then { cur, marks := [], res := .errAuth }
       else
